@@ -643,7 +643,7 @@ def check_c17(prop, tier, seed):
         if sig.startswith("X01/") and isinstance(d.get("cfg"), dict) and d["cfg"].get("ccancel"):
             # what the loop throws at a suspended user awaitable has to arrive there, unchanged and at once
             return "C17/" + sig.split("/")[1] + "/thrown-exception-not-passed-to-the-user-awaitable"
-        return ("C17/" + sig.split("/", 1)[1]) if ("foreign-suspension" in sig or "suspends-without" in sig) else None
+        return ("C17/" + sig.split("/", 1)[1]) if ("foreign-suspension" in sig or "suspends-without" in sig or "library-uses-asyncio" in sig) else None
 
     engines = [("tee", eng_tee, "C09"), ("lruconc", eng_lruconc, "C11"), ("cprop", eng_cprop, "C12"), ("decorator", eng_decor, "C15"),
                ("groupby", eng_groupby, "C16"), ("simplecm", eng_simplecm, "X01")]
